@@ -101,7 +101,7 @@ def check_result(chk: Check, case, exp, res, feats, cid, rep):
                 if dat != float(d["data"][m][g_i]):
                     bad("data moved", f"{label}: data at (time={mx}, spectral={gx}) is {dat}, input {d['data'][m][g_i]}")
                     return
-                if abs(dat - (fit + r)) > 1e-9 * max(1, abs(dat)):
+                if not (abs(dat - (fit + r)) <= 1e-9 * max(1, abs(dat))):      # NaN-safe
                     bad("data != fitted + residual", f"{label} at ({mx},{gx}): {dat} != {fit} + {r}")
                     return
                 if not close(r, v["res"][(m, g_i)]):
@@ -141,7 +141,7 @@ def check_result(chk: Check, case, exp, res, feats, cid, rep):
                     fitcol += scale * np.array([float(mat.sel(time=mx)) for mx in maxis]) * c
                 for m, mx in enumerate(maxis):
                     fit = float(rd.fitted_data.sel(time=mx, spectral=gx))
-                    if abs(fit - fitcol[m]) > 1e-9 * max(1, abs(fit)):
+                    if not (abs(fit - fitcol[m]) <= 1e-9 * max(1, abs(fit))):      # NaN-safe
                         bad("fitted != scale*matrix*clp", f"{label} at (time={mx}, spectral={gx}): fitted_data {fit}, dataset_scale({scale}) x matrix x clp = {fitcol[m]}")
                         return
             # relation targets exactly parameter x source where the relation applies
@@ -151,7 +151,7 @@ def check_result(chk: Check, case, exp, res, feats, cid, rep):
                         if _applies(r["ivs"], gx):
                             t = float(rd.clp.sel(spectral=gx, clp_label=r["target"]))
                             s_ = float(rd.clp.sel(spectral=gx, clp_label=r["source"]))
-                            if abs(t - r["param"] * s_) > 4 * np.spacing(abs(t)) + 1e-300:
+                            if not (abs(t - r["param"] * s_) <= 4 * np.spacing(abs(t)) + 1e-300):      # NaN-safe
                                 bad("relation", f"{label} at spectral={gx}: clp[{r['target']}] = {t!r} != {r['param']} x clp[{r['source']}] = {r['param'] * s_!r}")
                                 return
         else:
@@ -174,7 +174,7 @@ def check_result(chk: Check, case, exp, res, feats, cid, rep):
                             mat = rd.matrix.sel(spectral=gx, clp_label=ml, time=mx) if "spectral" in rd.matrix.dims else rd.matrix.sel(clp_label=ml, time=mx)
                             tot += float(mat) * float(rd.clp.sel(global_clp_label=gl, clp_label=ml)) * float(rd.global_matrix.sel(spectral=gx, global_clp_label=gl))
                     fit = float(rd.fitted_data.sel(time=mx, spectral=gx))
-                    if abs(fit - tot) > 1e-9 * max(1, abs(fit)):
+                    if not (abs(fit - tot) <= 1e-9 * max(1, abs(fit))):      # NaN-safe
                         bad("fitted != matrix*clp*global_matrix^T", f"{label} at (time={mx}, spectral={gx}): fitted_data {fit}, matrix x clp x global_matrix^T = {tot}")
                         return
     return ok
